@@ -62,7 +62,13 @@ pub fn bin(name: &str) -> Bytes {
     if let Some(b) = g.get(name) {
         return b.clone();
     }
-    let data: Bytes = std::fs::read(testdata_dir().join(name))
+    // programs of the harness itself (`own_*`) live next to this crate
+    let path = if name.starts_with("own_") {
+        PathBuf::from(concat!(env!("CARGO_MANIFEST_DIR"), "/testdata")).join(name)
+    } else {
+        testdata_dir().join(name)
+    };
+    let data: Bytes = std::fs::read(path)
         .unwrap_or_else(|e| panic!("read testdata/{name}: {e}"))
         .into();
     g.insert(name.to_string(), data.clone());
@@ -865,6 +871,20 @@ pub fn build(seed: u64, thorough: bool) -> Vec<Case> {
     for f in ["crash-45a6098d", "crash-4717eb0e", "crash-5a27052f"] {
         c.lock_cases(f, "", f, &[], &[], &[], &ALL, &PLAIN);
     }
+
+    // ---- a child that has terminated but is not yet waited for when the next one is spawned --
+    // (root spawns worker A, which exits with 3 at once, counts for a while, spawns worker B,
+    // then waits for both and checks the two exit codes; written for seeded change C05-8)
+    c.lock_cases(
+        "own_spawn_two_workers_joined_late",
+        "",
+        "own_spawn_two_workers_joined_late",
+        &[],
+        &[],
+        &[],
+        &[ScriptVersion::V2],
+        &PLAIN,
+    );
 
     // ---- load code --------------------------------------------------------------------
     let is_even = bin("is_even.lib");
